@@ -63,7 +63,7 @@ def gen_case(rng):
             continue          # dedicated handling exists
         where = rng.choice(["feed", "entry"])
         if rng.random() < 0.5:
-            text = rng.choice(["value", "some text", "42", "a b  c", "x"])
+            text = rng.choice(["value", "some text", "42", "a b  c", "x", "two\nlines", "Jane Q.\nPublic", "t\tab", " padded \n"])
             el = "<%s:%s>%s</%s:%s>" % (prefix, local, text, prefix, local)
             val = " ".join(text.split()) if False else text.strip()
             exps.append((where, key, "text", val))
